@@ -4,6 +4,7 @@ loop variables and simple helpers normalised away) and path conditions."""
 from __future__ import annotations
 
 import ast
+import re
 from typing import Dict, FrozenSet, List, Optional, Tuple
 
 from engine.src import FunctionInfo, own_nodes, own_nodes_incl_lambda, src_of, AnalysisError
@@ -1232,3 +1233,19 @@ def check_decorators(ck, rule: str, fis) -> None:
                     ck.unknown(rule, fi, f"@{ast.unparse(d)}", f"{fi.name} is memoised by @{name}: whether callers may share (and mutate) the returned object is not decided")
                 continue
             ck.unknown(rule, fi, f"@{ast.unparse(d)}", f"decorator {name} is not known to this analysis: the body of {fi.name} is no evidence of what a call does")
+
+
+def opaque_helpers_in(repo, fi: FunctionInfo, texts) -> List[str]:
+    """names of functions of fi's module that the rule tables do not know (introduced by an
+    edit) and that E-INL left as calls (a `return` inside a loop, recursion, ...), occurring
+    in the given expression texts: what such a helper decides is not read by the rules"""
+    known = repo.known_functions or set()
+    out = []
+    mod = fi.module
+    for name, f in mod.functions.items():
+        qn = f"{mod.name}:{name}"
+        if qn in known:
+            continue
+        if any(re.search(r"\b" + re.escape(name) + r"\(", t) for t in texts):
+            out.append(name)
+    return sorted(out)
